@@ -115,6 +115,9 @@ func checkC06(c *Ctx) {
 			c.c08Backend(b)
 		}
 	}, "R06.1", "backends.Write:stores", []string{"R08.3"}, "write-effect")
+	// … with the TTL it was given: every Write stores the expiry expireAt(ctx) computed from that TTL — E = now + ttl for every
+	// non-zero ttl, negative ones included (C10 R10.3)
+	c.borrowKinds("C10", func() { c.c10ExpireAt() }, "R06.1", "backends.Write:stored-expiry", []string{"R10.3"}, "stored-E", "no-ttl", "expiry-value")
 	c.c06WithTTL()
 	c.c06Accessors()
 	c.c06Detached()
